@@ -86,13 +86,18 @@ fn dots_are_members(parsed: &JoinInputDefault) -> bool {
     true
 }
 
-pub fn expand(text: &str, ci: usize) -> (Outcome, bool) {
-    HEARTBEAT.fetch_add(1, Ordering::Relaxed);
+/// records the input that is about to be expanded (read by the stall watchdogs)
+pub fn set_current(text: &str, ci: usize) {
     if let Ok(mut c) = CURRENT.try_lock() {
         c.0.clear();
         c.0.push_str(text);
         c.1 = ci;
     }
+}
+
+pub fn expand(text: &str, ci: usize) -> (Outcome, bool) {
+    HEARTBEAT.fetch_add(1, Ordering::Relaxed);
+    set_current(text, ci);
     let ts = match proc_macro2::TokenStream::from_str(text) {
         Ok(t) => t,
         Err(_) => return (Outcome::NotLexable, false),
